@@ -3,19 +3,38 @@ PROPS = ['PysphVerif.Props.C13']
 TRANSLATORS = []
 HARNESS = 'harness/c13.py'
 TRUSTED_BASE = [
-    'Lean 4.33 kernel; axioms propext, Classical.choice, Quot.sound only (audited per theorem each run)',
-    'hand-written model lean/PysphVerif/Model/GaussJordan.lean, tied to pysph/sph/wc/linalg.py by bit-exact differential execution at Float (harness/c13.py), both for the Python functions and for the functions transpiled by compyle inside a probe equation',
-    'exact ordered-field arithmetic stands in for IEEE doubles in the theorems; the literal 1e-12 is the parameter tol > 0',
-    'the eigen-decomposition of linalg3.pyx is monitored by test only (not modelled, not proved)',
+    'Lean 4.33 kernel + Mathlib (Matrix.det, mulVec, dotProduct); axioms propext, Classical.choice, Quot.sound only (audited per theorem each run)',
+    'hand-written model lean/PysphVerif/Model/GaussJordan.lean (flat row-major arrays, the index arithmetic of the source), tied to pysph/sph/wc/linalg.py by bit-exact differential execution at Float (harness/c13.py), both for the plain Python functions and for the same functions transpiled by compyle/Cython inside a probe Equation',
+    'exact ordered-field arithmetic stands in for IEEE doubles in the theorems; the literal 1e-12 (both occurrences) is the parameter tol > 0',
+    'the independent oracle of the harness (exact rational inverse, condition number, residual bound 64 n^2 eps cond |A| |x|)',
+    'the eigen-decomposition of linalg3.pyx (tred2/tql2) is neither modelled nor proved: its statement (V^T V = I, A V = V diag d, V diag d V^T = A) is monitored by test on generated symmetric matrices',
 ]
 ASSUMPTIONS = [
-    'arrays are large enough: n*(n+nb) <= len(m), n*nb <= len(result) (as at every call site)',
+    'arrays are large enough: n*(n+nb) <= len(m), n*nb <= len(result) (true at every call site)',
     'no NaN/inf among the inputs',
-    'CPU path (Python and compyle/Cython transpiled)',
+    'CPU paths (CPython, and compyle -> Cython -> g++ without -ffast-math)',
+    '"non-singular" in the return-code demand of the oracle means 1/|A^-1|_inf >= 1e-9 and cond_inf <= 1e8 (away from the absolute 1e-12 pivot guard); the theorems state the exact-arithmetic version (det A != 0 and no reduced column entirely below tol)',
 ]
-READY = False
+READY = True
 DESIGN_REF = '6/C13'
-TECHNIQUE = 'Lean 4 proof over a hand-written model + bit-exact correspondence check; eigen-solver monitored by test'
-LEVEL_TEXT = ''
-LEVEL_NOTE = ''
+TECHNIQUE = ('Lean 4 proof over a hand-written model + bit-exact correspondence check '
+             '(Gauss-Jordan and helpers); eigen-solver monitored by test')
+LEVEL_TEXT = ("Lean 4 theorems for every n, nb, every sufficiently large flat array and every linearly ordered "
+              "field about a hand-written model that transcribes gj_solve (repaired: partial pivoting with a real "
+              "row exchange), identity, dot, mat_mult, mat_vec_mult and augmented_matrix with their flat index "
+              "arithmetic: gj_sound (det A != 0 and return 0 => A x_c = b_c for every right-hand side, also as "
+              "Matrix.mulVec), gj_complete / gj_nonzero_only_if_singular_or_tiny (non-zero return only if det A = 0 "
+              "or a column of the row-reduced matrix is entirely below tol), gj_pivot_is_column_max, "
+              "gj_forward_triangular, row_ops_preserve_solutions, helpers = Mathlib's 1, *, mulVec, dotProduct, "
+              "block row; orig_prepass_is_identity and orig_counterexample pin down defect F5 of the unrepaired "
+              "code. The model is tied to the code on every run by bit-exact differential execution at Float "
+              "against the scratch build (Python and transpiled paths), and the property's own predicate "
+              "(exact rational oracle) is evaluated on the implementation to produce replays.")
+LEVEL_NOTE = ("Partial: the 3x3 symmetric eigen-decomposition (linalg3.pyx, EISPACK tred2/tql2) is an iterative "
+              "floating-point algorithm and is only MONITORED by test (orthonormality, A V = V diag d, "
+              "reconstruction; 2000 matrices quick / 40000 thorough over 11 styles and scales 1e-8..1e8), not "
+              "proved. The 'residual bounded by the conditioning' clause is a floating-point statement: proved "
+              "only in its exact-arithmetic form (residual 0), checked numerically by the oracle. Trusted: Lean "
+              "kernel + Mathlib, the hand-written model (checked by the correspondence, ~3800 cases quick), "
+              "exact-field arithmetic in place of IEEE doubles, compyle/Cython/g++ for the transpiled path.")
 TIMEOUT = {'quick': 1200, 'thorough': 4 * 3600}
